@@ -304,6 +304,7 @@ fn op_kind(o: &Op) -> u8 {
         Op::SetTight { on } => 131 + *on as u8,
         Op::AppPubrelBig { .. } => 133,
         Op::SwapSide => 137,
+        Op::ExhaustIds => 161,
         Op::ConnectAgain => 159,
         Op::DisconnectBig => 160,
         Op::PubFailContinue { qos, .. } => 138 + qos,
@@ -520,6 +521,17 @@ pub fn generate(prop: &str, rng: &mut Rng, tier: Tier, run: u64) -> (Case, Outco
     let mut s = Solo::new(cfg.clone());
     let mut ops = vec![];
     let mut states = vec![];
+    if prop == "C08" && run % 20000 == 0 && !cfg.pid32 {
+        // all 65535 identifiers in use at once, somewhere inside an ordinary session
+        let pre = rng.range(0, 6);
+        for _ in 0..pre {
+            let op = solo::gen_op(&s, rng, &prof);
+            ops.push(op.clone());
+            s.exec(&op);
+        }
+        ops.push(Op::ExhaustIds);
+        s.exec(&Op::ExhaustIds);
+    }
     // C05: adversarial peer traffic at PRNG points of an otherwise regular session
     let adversary = prop == "C05" && run % 3 != 0;
     for _ in 0..len {
